@@ -22,7 +22,7 @@ import (
 type VerifValue struct {
 	// Kind: "param" (the contracted parameter), "nil", "constunk" (a constant that is not nil: unknown, no table
 	// lookup), "nonnil" (intrinsically non-nil), "chgiface" / "mkiface" / "slice" (X), "s2ap" (X, LenPos),
-	// "append1" (X), "appendn", "phi" (Edges), "other"
+	// "append1" (X), "appendn" (X = first argument, LenPos = the further arguments are a varargs slice), "phi" (Edges), "other"
 	Kind   string
 	X      int
 	LenPos bool
@@ -121,7 +121,7 @@ func verifDump(pkg string, fn *ssa.Function) (res VerifFunc) {
 		case *ssa.Call:
 			if isBuiltinAppendCall(v) {
 				if len(v.Call.Args) > 1 {
-					val = VerifValue{Kind: "appendn", X: -1}
+					val = VerifValue{Kind: "appendn", X: visit(v.Call.Args[0]), LenPos: isVarargsSlice(v.Call.Args[1])}
 				} else {
 					val = VerifValue{Kind: "append1", X: visit(v.Call.Args[0])}
 				}
